@@ -10,6 +10,7 @@ import (
 	"path/filepath"
 	"regexp"
 	"slices"
+	"strings"
 	"sync"
 
 	"github.com/jessevdk/go-flags"
@@ -386,7 +387,7 @@ func removeLineFromFile(filePath, line string) error {
 
 	scanner := bufio.NewScanner(f)
 	for scanner.Scan() {
-		if scanner.Text() != line {
+		if normalizeIniLine(scanner.Text()) != line {
 			_, err := buf.Write(scanner.Bytes())
 			if err != nil {
 				return err
@@ -406,6 +407,17 @@ func removeLineFromFile(filePath, line string) error {
 		return err
 	}
 	return nil
+}
+
+// normalizeIniLine brings a "key = value" line into the "key=value" form this
+// package writes, the way the ini parser reads it (split at the first '=',
+// both sides trimmed).
+func normalizeIniLine(l string) string {
+	k, v, ok := strings.Cut(l, "=")
+	if !ok {
+		return strings.TrimSpace(l)
+	}
+	return strings.TrimSpace(k) + "=" + strings.TrimSpace(v)
 }
 
 func (p *Policy) reload(r io.Reader) error {
